@@ -23,6 +23,18 @@ pub assume_specification<T: ?Sized + PartialOrd, A: core::alloc::Allocator>[ <Bo
     ensures T::obeys_partial_cmp_spec() ==> r == (PartialOrdSpec::partial_cmp_spec(&**a, &**b) == Some(Ordering::Less));
 pub assume_specification<T: ?Sized + PartialEq, A: core::alloc::Allocator>[ <Box<T, A> as PartialEq>::eq ](a: &Box<T, A>, b: &Box<T, A>) -> (r: bool)
     ensures T::obeys_eq_spec() ==> r == PartialEqSpec::eq_spec(&**a, &**b);
+// the rest of Box's comparison surface (A1: Box<T> compares as T does), so that `>`, `>=`, `!=`, `.cmp()`, `.partial_cmp()` on boxed bounds
+// -- what a refactoring of `<` / `<=` / `==` may turn them into -- are within reach
+pub assume_specification<T: ?Sized + PartialOrd, A: core::alloc::Allocator>[ <Box<T, A> as PartialOrd>::ge ](a: &Box<T, A>, b: &Box<T, A>) -> (r: bool)
+    ensures T::obeys_partial_cmp_spec() ==> r == (PartialOrdSpec::partial_cmp_spec(&**a, &**b) matches Some(o) && o != Ordering::Less);
+pub assume_specification<T: ?Sized + PartialOrd, A: core::alloc::Allocator>[ <Box<T, A> as PartialOrd>::gt ](a: &Box<T, A>, b: &Box<T, A>) -> (r: bool)
+    ensures T::obeys_partial_cmp_spec() ==> r == (PartialOrdSpec::partial_cmp_spec(&**a, &**b) == Some(Ordering::Greater));
+pub assume_specification<T: ?Sized + PartialOrd, A: core::alloc::Allocator>[ <Box<T, A> as PartialOrd>::partial_cmp ](a: &Box<T, A>, b: &Box<T, A>) -> (r: Option<Ordering>)
+    ensures T::obeys_partial_cmp_spec() ==> r == PartialOrdSpec::partial_cmp_spec(&**a, &**b);
+pub assume_specification<T: ?Sized + Ord, A: core::alloc::Allocator>[ <Box<T, A> as Ord>::cmp ](a: &Box<T, A>, b: &Box<T, A>) -> (r: Ordering)
+    ensures T::obeys_cmp_spec() ==> r == OrdSpec::cmp_spec(&**a, &**b);
+pub assume_specification<T: ?Sized + PartialEq, A: core::alloc::Allocator>[ <Box<T, A> as PartialEq>::ne ](a: &Box<T, A>, b: &Box<T, A>) -> (r: bool)
+    ensures T::obeys_eq_spec() ==> r == !PartialEqSpec::eq_spec(&**a, &**b);
 
 // Vec<T>: Ord is lexicographic (std docs)
 pub open spec fn vec_lex<T: Ord>(a: Seq<T>, b: Seq<T>) -> Ordering
